@@ -67,10 +67,17 @@ mutual
         ∀ x ∈ (evalVE cfg f pending par hobj hpart p ve).1.roots, x ∈ f.roots
     | .atom a, f, par, hobj, hpart, p, _ => by simp [evalVE, Tree.okAt]
     | .fresh, f, par, hobj, hpart, p, _ => by simp [evalVE, Tree.okAt]
+    | .freshTuple n, f, par, hobj, hpart, p, _ => by simp [evalVE, Tree.okAt]
     | .mkRef tgt, f, par, hobj, hpart, p, _ => by simp [evalVE, Tree.okAt, okItems]
     | .ref id, f, par, hobj, hpart, p, hf => by
       simp only [evalVE]
       exact relocateRef_spec cfg f pending par hobj p id hf
+    | .typedList items, f, par, hobj, hpart, p, hf => by
+      simp only [evalVE]
+      have ih := evalItems_spec cfg pending items { f with nextId := f.nextId + 1 } f.nextId false false p (some 0) hf
+      refine ⟨?_, ih.2⟩
+      rw [okAt_node]
+      exact ⟨⟨rfl, rfl⟩, ih.1⟩
     | .node kind sl aw pt items, f, par, hobj, hpart, p, hf => by
       simp only [evalVE]
       have ih := evalItems_spec cfg pending items { f with nextId := f.nextId + 1 } f.nextId
@@ -84,7 +91,7 @@ mutual
       cases kind with
       | dict => exact ih.1
       | list => exact ih.1
-      | obj cls => exact normObj_ok cls _ p _ ih.1
+      | obj cls => exact normObj_ok cls _ p _ (adoptItems_ok _ _ p _ ih.1)
   theorem evalItems_spec (cfg : Cfg) (pending : Option Nat) : (items : List (Key × VE)) → ∀ (f : Forest) (h : Nat)
       (hobj hpart : Bool) (p : List Key) (pos : Option Nat), f.ok = true →
       okItems h p (evalItems cfg f pending h hobj hpart p pos items).2 = true ∧
@@ -205,8 +212,14 @@ theorem rawSetList_cases (cfg : Cfg) (f : Forest) (m : Meta) (its : Items) (key 
     · next old hold =>
       by_cases h4 : sameValue ve (some old) = true
       · rw [if_pos h4] at hr; left; cases hr; rfl
-      · rw [if_neg h4] at hr; right; left; cases hr; exact ⟨_, _, old, hold, rfl⟩
+      · rw [if_neg h4] at hr
+        by_cases h6 : (m.typed && !acceptsTyped f ve) = true
+        · rw [if_pos h6] at hr; cases hr
+        · rw [if_neg h6] at hr; right; left; cases hr; exact ⟨_, _, old, hold, rfl⟩
   rw [if_neg h2] at hr
+  by_cases h7 : (m.typed && !acceptsTyped f ve) = true
+  · rw [if_pos h7] at hr; cases hr
+  rw [if_neg h7] at hr
   by_cases h5 : idx < (its.length : Int)
   · rw [if_pos h5] at hr; right; right; left; cases hr; exact ⟨_, _, rfl⟩
   · rw [if_neg h5] at hr; right; right; right; cases hr; exact ⟨_, rfl⟩
@@ -229,10 +242,11 @@ theorem dictStore_ok (f : Forest) (m : Meta) (its : Items) (key : Key) (ve : VE)
     (isObjKind m.kind) m.part (m.path ++ [key]) hf
   have h3 : (Forest.mapAt (evalVE Cfg.patched f ((dictDetached its key).bind Tree.id?) (some m.id)
       (isObjKind m.kind) m.part (m.path ++ [key]) ve).1 m.id
-      (storeKey key key (evalVE Cfg.patched f ((dictDetached its key).bind Tree.id?) (some m.id)
-      (isObjKind m.kind) m.part (m.path ++ [key]) ve).2)).ok = true := by
+      (storeKey key key (adoptPartial (isObjKind m.kind) m.part
+        (evalVE Cfg.patched f ((dictDetached its key).bind Tree.id?) (some m.id)
+      (isObjKind m.kind) m.part (m.path ++ [key]) ve).2))).ok = true := by
     apply mapAt_ok _ m.id _ _ (ok_of_subset hf hv.2)
-    exact storeKey_local m.id _ _ _ (by rw [okSub_iff_okAt]; exact hv.1)
+    exact storeKey_local m.id _ _ _ (by rw [okSub_iff_okAt]; exact adopt_okAt _ _ _ _ _ hv.1)
   simp only
   split
   · split
